@@ -184,7 +184,7 @@ fn chunks<T>(g: Generator<T>, n: int)->Generator<Sequence<T>>{
 }
 
 fn contains<T, U>(s: Generator<T>, i: U, eq_: (T,U)->(bool))->bool{
-    s.any((t: U)->{eq_(i, t)})
+    s.any((t: T)->{eq_(t, i)})
 }
 
 fn count<T>(s: Generator<T>, f: (T)->(bool))->int{
@@ -192,7 +192,7 @@ fn count<T>(s: Generator<T>, f: (T)->(bool))->int{
 }
 
 fn count<T, U>(s: Generator<T>, i: U, eq_: (T,U)->(bool))->int{
-    s.filter((t: U)->{eq_(i, t)}).len()
+    s.filter((t: T)->{eq_(t, i)}).len()
 }
 
 fn distinct<T>(g: Generator<T>, h: (T)->(int), e: (T,T)->(bool))->Generator<T>{
@@ -1363,7 +1363,7 @@ fn count<T>(s: Sequence<T>, f: (T)->(bool))->int{
 }
 
 fn count<T, U>(s: Sequence<T>, i: U, eq_: (T,U)->(bool))->int{
-    s.filter((t: U)->{eq_(i, t)}).len()
+    s.filter((t: T)->{eq_(t, i)}).len()
 }
 
 fn flatten<T>(g: Sequence<Generator<T>>)->Generator<T>{
